@@ -8,13 +8,14 @@ EXTENDS WellSized, Json, IOUtils, TLC
 Rec == ndJsonDeserialize(IOEnv.TRACE)
 VARIABLE l
 
-EventOK(e) == e.panic = "" /\ ProjectOK(e.project)
+\* a case is a "reset" event (carries the generated extractor JSON for the replay) followed by the stages
+EventOK(e) == e.ev = "reset" \/ (e.panic = "" /\ ProjectOK(e.project))
 Why(e) == IF e.panic # "" THEN {"panic"} ELSE IllSized(e.project)
 
 Init == l = 1
 Next == /\ l <= Len(Rec)
         /\ l' = l + 1
-        /\ IF EventOK(Rec[l]) THEN TRUE ELSE PrintT(<<"BAD", l, Rec[l].stage, Why(Rec[l])>>)
+        /\ IF EventOK(Rec[l]) THEN TRUE ELSE PrintT(<<"BAD", l, Rec[l].stage, Rec[l].idx, Why(Rec[l])>>)
 Spec == Init /\ [][Next]_l
 Accepted == TLCGet("stats").diameter - 1 = Len(Rec)
 Post == IF Accepted THEN TRUE ELSE PrintT(<<"UNCONSUMED", TLCGet("stats").diameter>>) /\ FALSE
